@@ -109,6 +109,10 @@ CORPUS = [
      "comment": "block", "inputs": ["ab", "a/*c*/b", "/*c*/ab"], "tag": "corpus-comment-noskipws"},
     {"grammar": "Model: 'a' b=B c=ID;\nB[ws=' ']: 'x' 'y'+;\nComment: /\\/\\/.*?$/ | /\\/\\*(.|\\n)*?\\*\\//;\n", "opts": {},
      "rules": {"B": {"ws": " "}}, "comment": "both", "inputs": ["a x y y\n // c\n foo", "a x y foo"], "tag": "corpus-cpos-modes"},
+    {"grammar": "Model: a=A 'c';\nA[noskipws]: 'a' b=B;\nB[skipws, ws=' ']: 'x' 'y';\n", "opts": {}, "comment": None,
+     "rules": {"A": {"skipws": False}, "B": {"skipws": True, "ws": " "}}, "inputs": ["a x  y c", "ax y\nc", "a x\ty c"], "tag": "corpus-two-params"},
+    {"grammar": "Model: a=A 'c';\nA[noskipws]: 'a' b=B;\nB[ws=' ', skipws]: 'x' 'y';\n", "opts": {}, "comment": None,
+     "rules": {"A": {"skipws": False}, "B": {"skipws": True, "ws": " "}}, "inputs": ["a x  y c", "ax y\nc"], "tag": "corpus-two-params-2"},
     {"grammar": "Model: xs+=X[','] ';' ys*=ID;\nX: 'x' | INT;\nComment: /\\/\\/.*?$/;\n", "opts": {}, "rules": {}, "comment": "line",
      "inputs": ["x, 1 ,x; a b", "x;", "x ,\n1;// c\n a"], "tag": "corpus-plain-comment"},
 ]
@@ -256,7 +260,7 @@ def run(chk):
             defs.append("Definition g%d : grammar := %s.\nDefinition c%d : config := %s." % (
                 ci, pegdump.coq_grammar(d), ci, pegdump.coq_config(d)))
     vals, errs = core.coq_eval("C22", IMPORTS, exprs, defs="\n".join(defs), shard=120)
-    disagreements, failures = [], []
+    disagreements, failures, static_failures = [], [], []
     if errs:
         disagreements.append({"case": "coq evaluation", "model": errs[:2]})
     mvals = dict(zip(index, vals))
@@ -269,7 +273,7 @@ def run(chk):
         chk.stat("grammars: %s" % ("mode-constant" if mode_constant(d) else "with mode changes"))
         ginfo = {"grammar": case["grammar"], "opts": case["opts"], "tag": case.get("tag")}
         for what in static_tie(case, d):
-            failures.append({"case": ginfo, "what": what, "tags": []})
+            static_failures.append({"case": ginfo, "what": what, "tags": []})
         for ri, run_ in enumerate(res["runs"]):
             if run_.get("timeout") or run_.get("unsupported"):
                 chk.stat("input skipped (timeout/unsupported)")
@@ -364,7 +368,9 @@ def run(chk):
                         "theorem C22_invariant_partial covers whitespace insertion with memoization off; Comment-text insertion and memoization on are "
                         "covered by correspondence and oracle only",
                         "the whitespace mode per token is observed by wrapping arpeggio.Match.parse inside the runner process"]
-    decide(chk, failures, disagreements)
+    # behavioural failures (with a concrete failing input) first, then the static ones
+    failures.sort(key=lambda f: 0 if "outside the declared active set" in f["what"] or "insertion" in f["what"] or "changed" in f["what"] else 1)
+    decide(chk, failures + static_failures, disagreements)
 
 
 def replay(rep):
